@@ -23,8 +23,8 @@ static std::string g_mode;
 static void onAbort(const char* why) { L->ev(64, ks("ev", "hang") + "," + ks("why", why)); L->flush(); }
 static void onCrash(int sig) { L->ev(64, ks("ev", "crash") + "," + kv("sig", sig)); L->flush(); _exit(3); }
 
-struct MOp { int op; int a; int b; int d; }; // 0 addnode 1 rmnode 2 addedge 3 addmulti 4 rmedge 5 find 6 setdata 7 setnode 8 incdata
-static const char* OPN[] = {"addnode", "rmnode", "addedge", "addmulti", "rmedge", "find", "setdata", "setnode", "incdata"};
+struct MOp { int op; int a; int b; int d; }; // 0 addnode 1 rmnode 2 addedge 3 addmulti 4 rmedge 5 find 6 setdata 7 setnode 8 incdata 9 findall
+static const char* OPN[] = {"addnode", "rmnode", "addedge", "addmulti", "rmedge", "find", "setdata", "setnode", "incdata", "findall"};
 
 template <typename G, bool HasIn, bool Undirected>
 struct Driver {
@@ -32,6 +32,7 @@ struct Driver {
   G g;
   std::vector<GN> node;         // id -> handle (created lazily, never re-added after removal)
   std::vector<char> state;      // 0 unused, 1 active, 2 removed
+  bool sortedG = false;         // edges are kept sorted by destination (findEdgeSortedByDst is usable)
   explicit Driver(int maxNodes) : node(maxNodes, nullptr), state(maxNodes, 0) {}
   int idOf(GN n) { for (size_t i = 0; i < node.size(); ++i) if (node[i] == n) return (int)i; return -1; }
 
@@ -51,8 +52,36 @@ struct Driver {
     case 8: { // read-modify-write of the edge data under the locks findEdge took; the pause is a scheduling point
               auto e = g.findEdge(node[o.a], node[o.b]); if (e == g.edge_end(node[o.a])) return {0};
               long long v = g.getEdgeData(e); galois::substrate::asmPause(); g.getEdgeData(e) = (int)(v + 100); return {1, v + 100}; }
+    case 9: { // every way of looking an edge up must agree: findEdge, the sorted lookup (sorted flavours), the reverse view
+              // (the lookup comes first: it takes the locks; an end iterator fetched before that may be stale)
+              auto e1 = g.findEdge(node[o.a], node[o.b]);
+              long long f1 = e1 == g.edge_end(node[o.a]) ? 0 : 1, f2 = f1, f3 = f1;
+              if (sortedG) { auto e2 = g.findEdgeSortedByDst(node[o.a], node[o.b]); f2 = e2 == g.edge_end(node[o.a]) ? 0 : 1; }
+              if constexpr (HasIn && !Undirected) { auto e3 = g.findInEdge(node[o.b], node[o.a]); f3 = e3 == g.in_edge_end(node[o.b]) ? 0 : 1; }
+              else if constexpr (Undirected) { auto e3 = g.findEdge(node[o.b], node[o.a]); f3 = e3 == g.edge_end(node[o.b]) ? 0 : 1; }
+              return {f1, f2, f3}; }
     default: { g.getData(node[o.a]) = o.d; return {1}; }
     }
+  }
+  // parallel iteration over the nodes, the way galois::iterate(graph) hands them to do_all / for_each (local ranges of the
+  // node bag); a runaway iteration is cut off
+  std::string piter() {
+    static int visits[256];
+    for (auto& v : visits) v = 0;
+    long total = 0, bad = 0;
+    long limit = 50 * (long)node.size() + 1000;
+    galois::do_all(galois::iterate(g), [&](GN n) {
+      if (__atomic_add_fetch(&total, 1, __ATOMIC_SEQ_CST) > limit) {
+        L->ev(64, ks("ev", "piter") + ",\"nodes\":[]," + kv("bad", -1));
+        L->flush();
+        _exit(3);
+      }
+      int id = n ? idOf(n) : -1;
+      if (id < 0 || id >= 256) __atomic_add_fetch(&bad, 1, __ATOMIC_SEQ_CST); else __atomic_add_fetch(&visits[id], 1, __ATOMIC_SEQ_CST);
+    }, galois::no_stats(), galois::loopname("piter"));
+    VL ids;
+    for (int i = 0; i < 256; ++i) for (int k = 0; k < visits[i]; ++k) ids.push_back(i);
+    return ks("ev", "piter") + ",\"nodes\":" + vh::jarr(ids) + "," + kv("bad", bad);
   }
   // which operations are applicable given the harness-side node states (pre-condition of the ADT)
   bool applicable(const MOp& o) {
@@ -119,8 +148,8 @@ static int g_loopPolicy = 0;          // 0: no self loops at all, 1: every execu
 static std::string g_only = "all";   // run only this flavour
 static MOp randomOp(vh::Rng& r, int nn, int step) {
   MOp o;
-  int k = (int)r.below(24);
-  o.op = k < 3 ? 0 : k < 5 ? 1 : k < 10 ? 2 : k < 13 ? 3 : k < 16 ? 4 : k < 17 ? 5 : k < 19 ? 6 : k < 20 ? 7 : 8;
+  int k = (int)r.below(27);
+  o.op = k < 3 ? 0 : k < 5 ? 1 : k < 10 ? 2 : k < 13 ? 3 : k < 16 ? 4 : k < 17 ? 5 : k < 19 ? 6 : k < 20 ? 7 : k < 24 ? 8 : 9;
   o.a = (int)r.below(nn); o.b = (int)r.below(nn); o.d = step + 1;
   if (!g_selfloops && o.op >= 2 && o.op != 7 && o.a == o.b) o.b = (o.a + 1) % nn;   // self loops only in flagged executions
   // parallel edges only between designated pairs and with one constant datum, so that "remove / update
@@ -128,7 +157,7 @@ static MOp randomOp(vh::Rng& r, int nn, int step) {
   bool multiPair = ((o.a + 2 * o.b) % 3 == 0);
   if (o.op == 3) { if (!multiPair) o.op = 2; else o.d = 7; }
   if (multiPair && (o.op == 2 || o.op == 6)) o.op = 3, o.d = 7;
-  if (multiPair && o.op == 8) o.op = 5;
+  if (multiPair && o.op == 8) o.op = 9;
   return o;
 }
 
@@ -142,6 +171,7 @@ static void flavour(const char* name, vh::Rng& rng, bool thorough) {
       // every third history: six nodes and a longer run (removed nodes leave dead entries behind in the sorted flavours)
       const int NN = (h % 3 == 2 || (Sorted && h % 3 == 1)) ? 6 : 4;
       Driver<G, HasIn, Undirected> d(NN);
+      d.sortedG = Sorted;
       g_selfloops = g_loopPolicy == 1;
       L->ev(64, ks("ev", "reset") + "," + ks("flavour", name) + "," + ks("mode", "seq") + "," + kv("threads", 1) + "," + kv("hasin", HasIn ? 1 : 0) +
                     "," + kv("undir", Undirected ? 1 : 0) + "," + kv("sortedg", Sorted ? 1 : 0) + "," + kv("selfloops", g_selfloops ? 1 : 0) + "," + kv("seed", h));
@@ -181,6 +211,7 @@ static void flavour(const char* name, vh::Rng& rng, bool thorough) {
     unsigned threads = 1 + (unsigned)(s % maxT);
     const int CN = ctl ? 4 : 6;
     Driver<G, HasIn, Undirected> d(CN + 64);
+    d.sortedG = Sorted;
     g_selfloops = g_loopPolicy == 1;
     L->ev(64, ks("ev", "reset") + "," + ks("flavour", name) + "," + ks("mode", g_mode) + "," + kv("threads", threads) + "," + kv("hasin", HasIn ? 1 : 0) +
                   "," + kv("undir", Undirected ? 1 : 0) + "," + kv("sortedg", Sorted ? 1 : 0) + "," + kv("selfloops", g_selfloops ? 1 : 0) + "," + kv("seed", (long long)(s % 1000000007)));
@@ -226,6 +257,11 @@ static void flavour(const char* name, vh::Rng& rng, bool thorough) {
     verif::configure(off);
 #endif
     for (auto& o : prog) d.track(o);
+    // some of the nodes the iterations created (spread over the threads' segments of the node bag) are removed again, then
+    // the nodes are iterated in parallel
+    for (int id = CN; id < fresh; ++id)
+      if (d.state[id] == 1 && pr.coin(1, 2)) { MOp o{1, id, 0, 0}; VL r = d.apply(o); d.track(o); L->ev(0, opJson(0, o, r)); }
+    L->ev(64, d.piter());
     L->ev(64, d.dump());
     L->ev(64, ks("ev", "end"));
     L->flush();
@@ -256,7 +292,7 @@ int main(int argc, char** argv) {
     char name[32]; int a, b, dd;
     while (scanf("%31s %d %d %d", name, &a, &b, &dd) == 4) {
       MOp o{0, a, b, dd};
-      for (int k = 0; k < 9; ++k) if (std::string(OPN[k]) == name) o.op = k;
+      for (int k = 0; k < 10; ++k) if (std::string(OPN[k]) == name) o.op = k;
       VL r = d.apply(o); d.track(o);
       printf("%s %d %d %d -> %s\n", name, a, b, dd, vh::jarr(r).c_str());
     }
